@@ -18,6 +18,8 @@ Line-protocol driver for C10 (requests and responses are flat int lists, see `ha
   perceive <mol>                    -> ok <perceived>        | err key|set-order|fuel
                                        (`cumulenes`, `stereogenic_cumulenes`, `_stereo_cis_trans_terminals`,
                                         `_stereo_cis_trans_centers`, `_stereo_allenes_terminals` of the model)
+  packf <mol>                       -> ok <bytes>   (`packFull`: terminals from the model's own perception; the nterm part of <mol> is ignored)
+  unpackf <bytes>                   -> ok <decoded> (`unpackFull`: decoder + perception of the decoded molecule + re-attachment)
   phyp <mol>                        -> ok t k d   (terminals of <mol> = perceived terminals; `marksOKb`; `keysDisjointb`)
   f16 <neg> <m> <e>                 -> ok <bits>
   f16d <bits>                       -> ok <neg> <m> <e>
@@ -144,6 +146,17 @@ def handle (line : String) : String :=
           | .ok p => "ok " ++ showPerceived p
           | .error e => "err " ++ e.toString
         | _ => "err parse"
+      | "packf" =>
+        match parseMol xs with
+        | some (m, []) =>
+          match packFull m.atoms with
+          | .ok b => "ok " ++ showNats b
+          | .error e => "err " ++ e.toString
+        | _ => "err parse"
+      | "unpackf" =>
+        match unpackFull (bytesOf xs) with
+        | .ok d => "ok " ++ showDecoded d
+        | .error e => "err " ++ e.toString
       | "phyp" =>
         match parseMol xs with
         | some (m, []) =>
